@@ -392,3 +392,22 @@ benign_patch('c13-zero-weight-skip', ['C13', 'C09', 'C06', 'C08'])
 benign_patch('c08-option-insert', ['C08', 'C02', 'C01', 'C18', 'C07'])
 case('benign-rrt-eq0-threshold', ['C01', 'C03', 'C06'], [],
      (RRT, "            if num_steps <= 1 {\n                return vc.is_valid(to);", "            if num_steps == 0 {\n                return vc.is_valid(to);"))
+
+# round 3 of seeded changes
+seeded('seeded-R3C02-root-enforced', ['C02', 'C01'], ['C02.reroot', 'C01.root'])
+seeded('seeded-R3C05-step-floor', ['C05'], ['C05.steer'])
+seeded('seeded-R3C06-goal-cache', ['C02'], ['C02.goal'])
+seeded('seeded-R3C11-compound-skip-enforce', ['C13'], ['C13.match'])
+seeded('seeded-R3C12-clamp-keeps-nan', ['C12'], ['C12.nan'])
+seeded('seeded-R3C16-bias-one-excluded', ['C16'], ['C16.bias'])
+seeded('seeded-R3C17-cost-without-parent', ['C17', 'C15'], ['C17.rewire', 'C15.acyclic'])
+seeded('seeded-R3C18-goal-not-start-connection', ['C18', 'C02', 'C03', 'C05'], ['C18.query'])
+seeded('seeded-R3C19-seed-through-f64', ['C19'], ['C19.seed'])
+seeded('seeded-R3C20-attribute-error-fallback', ['C20'], ['C20.goal'])
+benign_patch('prm-single-pass-query', ALL)
+benign_patch('ben5-r1', ALL)                                   # RRT* choose_parent() helper
+benign_patch('ben6-r2', ['C09', 'C10', 'C11', 'C12', 'C06', 'C07', 'C08'])   # SO2 lower()/upper() accessors
+benign_patch('ben6-r3', ['C13', 'C08', 'C06', 'C09', 'C11'])   # AnyStateSpace downcast helpers
+benign_patch('ben6-r4', ['C09', 'C10', 'C11', 'C12', 'C08'])   # wrap_to_pi / norm helpers in the states
+benign_patch('ben7-r1', ['C19', 'C20'])                        # JS goal adapter method() helper
+benign_patch('ben7-r2', ['C19', 'C20'])                        # JS RRT-Connect macro arms
